@@ -585,10 +585,15 @@ def main():
                 for f in mine:
                     bycase.setdefault(f["case"], []).append(f)
                 for case, fs in bycase.items():
+                    # failure lines that are a recorded finding are reported as such and set aside; what
+                    # remains of the case (if anything) is judged on its own, so that a recorded finding in
+                    # the same history neither hides a new failure nor lends it a "failing input"
                     kfs = [match_known(pid, f, known) for f in fs]
-                    if all(k is not None for k in kfs):
-                        for k, f in zip(kfs, fs):
+                    for k, f in zip(kfs, fs):
+                        if k is not None:
                             known_hits.append((k, f))
+                    fs = [f for f, k in zip(fs, kfs) if k is None]
+                    if not fs:
                         continue
                     if any(f["check"] == "block-digest" for f in fs):
                         more = refine_block(pid, fs[0], work, prof)
